@@ -25,7 +25,7 @@ func init() {
 func runC12Shared(c *sim.Ctx, t *testing.T) {
 	// run-specific variable names: anything the matcher might remember per name
 	// (process-wide) is cold when the walkers start
-	cfg := genCfg{native: true, failOps: true, nullRet: true, permanents: true, guards: true, guardEmits: true, loops: true, maxNodes: 4,
+	cfg := genCfg{native: true, failOps: true, nullRet: true, permanents: true, guards: true, guardEmits: true, loops: true, maxNodes: 4, ext: true,
 		ineqSuffix: fmt.Sprintf("%d", c.Seed%1000003)}
 	c.PermuteOff = true
 	sim.Install(c)
@@ -166,17 +166,67 @@ func c12Version(tag string, native bool, extraHop bool) *ref.Spec {
 	return s
 }
 
+// c12Derive builds version B the way an update is applied to a running system: a copy of
+// the live version, edited (sources, guards, targets, one more node) and compiled.  like is
+// an independently built B that says what the result has to be.
+func c12Derive(live, like *core.Spec) (*core.Spec, error) {
+	d := live.Copy("B")
+	names := make([]string, 0, len(like.Nodes))
+	for name := range like.Nodes {
+		names = append(names, name)
+	}
+	sortStrings(names)
+	for _, name := range names {
+		nb := like.Nodes[name]
+		sim.Yield("h#derive")
+		nd, have := d.Nodes[name]
+		if !have {
+			nd = nb.Copy()
+			d.Nodes[name] = nd
+		}
+		if nb.ActionSource != nil {
+			nd.ActionSource = nb.ActionSource.Copy()
+			nd.Action = nil
+		}
+		if nd.Branches == nil || nb.Branches == nil {
+			continue
+		}
+		for i, br := range nd.Branches.Branches {
+			if i >= len(nb.Branches.Branches) {
+				break
+			}
+			br.Target = nb.Branches.Branches[i].Target
+			if gs := nb.Branches.Branches[i].GuardSource; gs != nil {
+				br.GuardSource = gs.Copy()
+				br.Guard = nil
+			}
+		}
+	}
+	sim.Yield("h#derive-compile")
+	if err := d.Compile(context.Background(), interpreters, true); err != nil {
+		return nil, err
+	}
+	return d, nil
+}
+
 func runC12Swap(c *sim.Ctx, t *testing.T) {
 	c.PermuteOff = true
 	sim.Install(c)
 	native := c.Bool("native")
+	genExt = false
 	va, err1 := compile(c12Version("A", native, false))
-	vb, err2 := compile(c12Version("B", !native && c.Bool("nativeB"), true))
+	nativeB := !native && c.Bool("nativeB")
+	genExt = false
+	vb, err2 := compile(c12Version("B", nativeB, true))
 	sim.Uninstall()
 	if err1 != nil || err2 != nil {
 		c.Infra = fmt.Sprint("version specs do not compile: ", err1, err2)
 		return
 	}
+	// half of the script-only runs do not swap in an independently built version B: the
+	// updater derives it from the live version A (Spec.Copy), edits the copy and compiles
+	// it while walks over A are in flight - as a host applying a spec update does
+	derive := !native && !nativeB && c.Chance(3, 4, "derive")
 	ctx := context.Background()
 	nw := 2 + c.Intn(4, "nwalkers")
 	nmsg := 1 + c.Intn(4, "nmsgs")
@@ -209,10 +259,16 @@ func runC12Swap(c *sim.Ctx, t *testing.T) {
 			})
 		}
 		s.Go("swapper", func(tk *sim.Task) {
+			next := vb
 			for k := 0; k < nswaps; k++ {
 				sim.Yield("h#swap")
+				if k == 0 && derive {
+					if d, err := c12Derive(va, vb); err == nil {
+						next = d
+					}
+				}
 				if k%2 == 0 {
-					us.SetSpec(vb)
+					us.SetSpec(next)
 				} else {
 					us.SetSpec(va)
 				}
@@ -241,8 +297,11 @@ func runC12Swap(c *sim.Ctx, t *testing.T) {
 	c.Add("calls_saw_A", sawA)
 	c.Add("calls_saw_B", sawB)
 	c.Add("steps_with_choice", c.Sched.Switches)
-	c.MixHash(fmt.Sprint(nw, nmsg, nswaps, sawA, sawB))
-	c.Path = fmt.Sprintf("%d/%d/%d/%016x", nw, nmsg, nswaps, c.Sched.Hash)
+	if derive {
+		c.Count("versions_derived_from_the_live_one")
+	}
+	c.MixHash(fmt.Sprint(nw, nmsg, nswaps, sawA, sawB, derive))
+	c.Path = fmt.Sprintf("%d/%d/%d/%v/%016x", nw, nmsg, nswaps, derive, c.Sched.Hash)
 	c.Trivial = c.Sched.Switches == 0
 	c.Sample = map[string]interface{}{"walkers": nw, "messages_each": nmsg, "swaps": nswaps, "calls_saw_A": sawA, "calls_saw_B": sawB}
 }
